@@ -17,7 +17,7 @@ var (
 )
 
 func removeFromWorkingTree(path string) error {
-	if _, err := os.Stat(path); !os.IsNotExist(err) {
+	if _, err := os.Stat(path); !isMissing(err) {
 		if err := os.Remove(path); err != nil {
 			return fmt.Errorf("fail to delete %s from the working tree: %w", path, err)
 		}
